@@ -21,13 +21,26 @@ class Stop(Exception):
 
 
 def _inline(fi):
-    """Statements of fi with single-definition locals (n = self.n, C = self.C, minval = self.f()) substituted."""
+    """Single-definition locals that only abbreviate state (n = self.n, C = self.C, row = self.C[i], minval = self.f(),
+    value = row[j], flag = not self.col_covered[j]) -> their (recursively substituted) values."""
     env = {k: v for k, v in lib.local_env(fi.node).items()
            if not any(isinstance(n, (ast.ListComp, ast.GeneratorExp, ast.Lambda)) for n in ast.walk(v))}
-    # only substitute values that are free of locals themselves (self.x, self.f(), constants)
-    loc = set(lib.local_env(fi.node)) | {n.id for n in walk_own(fi.node) if isinstance(n, ast.Name) and isinstance(n.ctx, ast.Store)}
-    env = {k: v for k, v in env.items() if not ({n.id for n in ast.walk(v) if isinstance(n, ast.Name)} & (loc | set(fi.params[1:])))}
-    return env
+    loopvars = {n.target.id for n in walk_own(fi.node) if isinstance(n, ast.For) and isinstance(n.target, ast.Name)}
+    stored = {n.id for n in walk_own(fi.node) if isinstance(n, ast.Name) and isinstance(n.ctx, ast.Store)}
+    out = {}
+    changed = True
+    while changed:
+        changed = False
+        for k, v in env.items():
+            if k in out:
+                continue
+            names = {n.id for n in ast.walk(v) if isinstance(n, ast.Name)}
+            free = names - loopvars - set(out) - {fi.params[0] if fi.params else None}
+            # what remains must not be a rebindable local or a parameter other than self
+            if not (free & (stored | set(fi.params[1:]))):
+                out[k] = nf.subst(v, out)
+                changed = True
+    return out
 
 
 def _sub(node, env):
@@ -37,8 +50,9 @@ def _sub(node, env):
 class Cell(object):
     """Symbolic per-cell execution of a loop body."""
 
-    def __init__(self, fi, env, atoms, wrong, tracked):
+    def __init__(self, fi, env, atoms, wrong, tracked, inner=None):
         self.fi, self.env = fi, env
+        self.inner = inner
         self.atoms = {k: nf.pat(v) for k, v in atoms.items()}
         self.wrong = [(nf.pat(p), msg) for p, msg in wrong]
         self.tracked = {k: nf.pat(v) for k, v in tracked.items()}
@@ -68,6 +82,13 @@ class Cell(object):
             k = self.atom_of(neg) if isinstance(neg, ast.Compare) else None
             if k is not None:
                 return not val[k]
+            if isinstance(e.ops[0], (ast.Eq, ast.NotEq, ast.Is, ast.IsNot)):
+                try:
+                    a, b = self.truth(e.left, val), self.truth(e.comparators[0], val)
+                except AnalysisError:
+                    a = b = None
+                if a is not None:
+                    return (a == b) if isinstance(e.ops[0], (ast.Eq, ast.Is)) else (a != b)
         if isinstance(e, ast.Constant):
             return bool(e.value)
         raise AnalysisError('%s: condition `%s` is not built from the reviewed atoms' % (self.fi.qualname, short(e)))
@@ -95,6 +116,12 @@ class Cell(object):
                 continue
             if isinstance(s, (ast.Continue, ast.Break, ast.Return, ast.Raise)):
                 return eff, (type(s).__name__.lower(), s)
+            if isinstance(s, ast.For) and s is self.inner:
+                e2, term = self.run(s.body, val)
+                eff += e2
+                if term and term[0] != 'continue':
+                    return eff, term
+                return eff, None        # statements after the inner loop run once per row, not per cell
             if isinstance(s, ast.AugAssign):
                 k = self.target_of(_sub(s.target, self.env))
                 if k is not None:
@@ -209,16 +236,13 @@ def _step6(r, idx, fi, fs):
     i, j = lo.target.id, li.target.id
     label = 'Munkres.__step6'
     _full_range(r, fi, env, [lo, li], label, S)
-    if lo.body != [li] and any(not (isinstance(s, ast.Expr) or isinstance(s, ast.Assign) and all(isinstance(t, ast.Name) for t in s.targets))
-                               for s in lo.body if s is not li):
-        raise AnalysisError('__step6: statements beside the inner loop not recognised')
     cell = Cell(fi, env,
                 atoms={'rc': '%s.row_covered[%s]' % (S, i), 'cc': '%s.col_covered[%s]' % (S, j),
                        'dis': '%s.C[%s][%s] is DISALLOWED' % (S, i, j)},
                 wrong=[('%s.row_covered[%s]' % (S, j), 'row cover is looked up with the column index'),
                        ('%s.col_covered[%s]' % (S, i), 'column cover is looked up with the row index')],
-                tracked={'C': '%s.C[%s][%s]' % (S, i, j)})
-    tab, names = cell.table(li.body, fixed={'dis': False})
+                tracked={'C': '%s.C[%s][%s]' % (S, i, j)}, inner=li)
+    tab, names = cell.table(lo.body, fixed={'dis': False})
     if tab is None:
         for msg, e in cell.violations:
             r.violation(label + ': adjustment', msg + ' (`%s`)' % short(e), fi.loc)
@@ -278,8 +302,8 @@ def _find_smallest(r, idx, fi):
                 wrong=[('%s < %s.C[%s][%s]' % (mv, S, i, j), 'the running value is replaced by *larger* cells: the maximum is returned'),
                        ('%s.row_covered[%s]' % (S, j), 'row cover is looked up with the column index'),
                        ('%s.col_covered[%s]' % (S, i), 'column cover is looked up with the row index')],
-                tracked={'min': mv})
-    tab, names = cell.table(li.body, fixed={'nd': True, 'lt': True})
+                tracked={'min': mv}, inner=li)
+    tab, names = cell.table(lo.body, fixed={'nd': True, 'lt': True})
     if tab is None:
         for msg, e in cell.violations:
             r.violation(label + ': candidate cells', msg + ' (`%s`)' % short(e), fi.loc)
@@ -300,7 +324,7 @@ def _find_smallest(r, idx, fi):
                         'negative or creates no new zero)' % ('' if key['rc'] else 'un', '' if key['cc'] else 'un',
                                                               'enters' if taken else 'is ignored for'), fi.loc,
                         expected='not row_covered[i] and not col_covered[j]')
-    tab2, _ = cell.table(li.body, fixed={'nd': True, 'lt': False})
+    tab2, _ = cell.table(lo.body, fixed={'nd': True, 'lt': False})
     if tab2 and any(any(t == 'min' for t, op, v, s in eff) for eff, term in tab2.values()):
         bad = True
         r.violation(label + ': candidate cells', 'the running minimum is replaced by a cell that is not smaller', fi.loc)
@@ -325,7 +349,7 @@ def _step1(r, idx, fi):
     call = mins[0].value
     construct = label + ': row minimum'
     src = cm.deref(fi, call.args[0]) if call.args else None
-    row_ok = src is not None and any(nf.match('%s.C[%s]' % (S, i), _sub(n, env)) is not None for n in ast.walk(src)
+    row_ok = src is not None and any(nf.match('%s.C[%s]' % (S, i), n) is not None for n in ast.walk(_sub(src, env))
                                      if isinstance(n, ast.Subscript))
     if nf.callee_name(call) in ('min', 'amin') and row_ok:
         r.ok(construct, 'min over row i', lib.loc(fi, mins[0]))
@@ -384,8 +408,9 @@ def _step2(r, idx, fi):
                 atoms={'z': '%s.C[%s][%s] == 0' % (S, i, j), 'rc': '%s.row_covered[%s]' % (S, i), 'cc': '%s.col_covered[%s]' % (S, j)},
                 wrong=[('%s.row_covered[%s]' % (S, j), 'row cover is looked up with the column index'),
                        ('%s.col_covered[%s]' % (S, i), 'column cover is looked up with the row index')],
-                tracked={'marked': '%s.marked[%s][%s]' % (S, i, j), 'rc': '%s.row_covered[%s]' % (S, i), 'cc': '%s.col_covered[%s]' % (S, j)})
-    tab, names = cell.table(li.body)
+                tracked={'marked': '%s.marked[%s][%s]' % (S, i, j), 'rc': '%s.row_covered[%s]' % (S, i), 'cc': '%s.col_covered[%s]' % (S, j)},
+                inner=li)
+    tab, names = cell.table(lo.body)
     construct = label + ': initial stars'
     if tab is None:
         for msg, e in cell.violations:
@@ -425,7 +450,9 @@ def _step2(r, idx, fi):
     cc = [c for c in lib.calls_named(fi.node, '__clear_covers') if cm.is_self_attr(c.func, S)]
     construct = label + ': covers cleared'
     cfg = cfg_of(fi.node)
-    if not cc:
+    if not cc and cm.calls_unreviewed(idx, fi.node):
+        r.undecided(construct, 'no call of __clear_covers; un-inlined helpers %s are called' % cm.calls_unreviewed(idx, fi.node), fi.loc)
+    elif not cc:
         r.violation(construct, 'the covers used to remember starred lines are not cleared before step 3: every line of a starred zero '
                     'stays covered, step 3 counts nothing and step 4 finds no uncovered zero', fi.loc, expected='self.__clear_covers()')
     else:
@@ -451,8 +478,8 @@ def _step3(r, idx, fi):
     cell = Cell(fi, env, atoms={'st': '%s.marked[%s][%s] == 1' % (S, i, j), 'cc': '%s.col_covered[%s]' % (S, j)},
                 wrong=[('%s.marked[%s][%s] == 2' % (S, i, j), 'columns of *primed* zeros are covered instead of starred ones'),
                        ('%s.col_covered[%s]' % (S, i), 'column cover is looked up with the row index')],
-                tracked={'cc': '%s.col_covered[%s]' % (S, j), 'count': cnt, 'rc': '%s.row_covered[%s]' % (S, i)})
-    tab, names = cell.table(li.body)
+                tracked={'cc': '%s.col_covered[%s]' % (S, j), 'count': cnt, 'rc': '%s.row_covered[%s]' % (S, i)}, inner=li)
+    tab, names = cell.table(lo.body)
     construct = label + ': covered columns'
     if tab is None:
         for msg, e in cell.violations:
@@ -494,14 +521,14 @@ def _step4(r, idx, fi):
     if len(loops) != 1:
         raise AnalysisError('__step4: expected one while loop')
     w = loops[0]
-    rets = lib.returns_of(fi.node)
+    rets = [x for x in lib.returns_of(fi.node) if not any(x is n for n in ast.walk(w))]
     stepv = rets[0].value.id if len(rets) == 1 and isinstance(rets[0].value, ast.Name) else None
     flag = None
     t = nf.canon(w.test)
     if isinstance(t, ast.UnaryOp) and isinstance(t.op, ast.Not) and isinstance(t.operand, ast.Name):
         flag = t.operand.id
-    if stepv is None or flag is None:
-        raise AnalysisError('__step4: `while not done` / `return step` shape not recognised')
+    elif not (isinstance(t, ast.Constant) and t.value is True):
+        raise AnalysisError('__step4: loop condition `%s` not recognised' % short(w.test))
     fz = [s for s in w.body if isinstance(s, ast.Assign) and cm.is_call_to(s.value, '__find_a_zero')]
     if len(fz) != 1 or not (isinstance(fz[0].targets[0], ast.Tuple) and len(fz[0].targets[0].elts) == 2):
         raise AnalysisError('__step4: `(row, col) = self.__find_a_zero(...)` not found')
@@ -560,10 +587,15 @@ def _step4(r, idx, fi):
         for e in p.effects:
             if isinstance(e, ast.Assign) and len(e.targets) == 1 and not isinstance(e.targets[0], (ast.Name, ast.Tuple)):
                 stores[unparse(e.targets[0])] = e.value
-        done = nf.const_value(env.get(flag), None) if flag in env else None
-        nxt = nf.const_value(env.get(stepv), None) if stepv in env else None
-        if p.leaf.kind != 'fall':
-            r.undecided(label, 'a path of the loop body returns/raises', where)
+        if p.leaf.kind == 'ret' and isinstance(p.leaf.expr, ast.Constant):
+            done, nxt = True, p.leaf.expr.value          # early return of the next step number
+        elif p.leaf.kind == 'fall':
+            done = (nf.const_value(env.get(flag), None) if flag in env else None) if flag is not None else False
+            nxt = nf.const_value(env.get(stepv), None) if stepv is not None and stepv in env else None
+            if done is None and flag is not None and flag not in env:
+                done = False
+        else:
+            r.undecided(label, 'a path of the loop body %s' % ('raises' if p.leaf.kind == 'raise' else 'returns `%s`' % short(p.leaf.expr)), where)
             continue
         if neg_row and not pos_row:
             seen.add('none')
@@ -629,6 +661,9 @@ def _step5(r, idx, fi, cp):
         why = {'__convert_path': 'the alternating path is not flipped: the matching never grows and the solver loops',
                '__clear_covers': 'covers survive into step 3, which then miscounts covered columns',
                '__erase_primes': 'stale primes are followed by the next alternating path'}[n]
+        if not calls[n] and cm.calls_unreviewed(idx, fi.node):
+            r.undecided(construct, 'no call of %s; un-inlined helpers %s are called' % (n, cm.calls_unreviewed(idx, fi.node)), fi.loc)
+            continue
         if not calls[n]:
             r.violation(construct, 'step 5 no longer calls %s: %s' % (n, why), fi.loc)
             continue
@@ -746,20 +781,37 @@ def _scans(r, idx, meth):
     for name, axis, mark, word in specs:
         if name not in meth:
             raise AnalysisError('Munkres.%s not found' % name)
-        fi = meth[name]
-        S = fi.params[0]
-        if len(fi.params) != 2:
+        outer_fi = meth[name]
+        if len(outer_fi.params) != 2:
             raise AnalysisError('%s: parameters changed' % name)
-        p = fi.params[1]
-        env = _inline(fi)
+        fi, bind = outer_fi, {}
+        body = [x for x in outer_fi.node.body if not (isinstance(x, ast.Expr) and isinstance(x.value, ast.Constant))]
+        if len(body) == 1 and isinstance(body[0], ast.Return) and isinstance(body[0].value, ast.Call) \
+                and cm.is_self_attr(body[0].value.func, outer_fi.params[0]) and body[0].value.func.attr in meth \
+                and not body[0].value.keywords:
+            callee = meth[body[0].value.func.attr]          # delegation to a shared scan helper
+            cp = callee.params[1:]
+            if len(cp) != len(body[0].value.args):
+                raise AnalysisError('%s: delegation `%s` cannot be bound' % (name, short(body[0])))
+            fi, bind = callee, dict(zip(cp, body[0].value.args))
+        S = fi.params[0]
+        p = outer_fi.params[1]
+        env = dict(_inline(fi))
+        env.update(bind)
+        if bind and S != outer_fi.params[0]:
+            env[S] = ast.Name(id=outer_fi.params[0], ctx=ast.Load())
+            S = outer_fi.params[0]
         (lp,) = _nest(fi, 1)
         k = lp.target.id
         label = 'Munkres.%s' % name
         _full_range(r, fi, env, [lp], label, S)
-        rets = lib.returns_of(fi.node)
-        out = rets[0].value.id if len(rets) == 1 and isinstance(rets[0].value, ast.Name) else None
-        if out is None:
-            raise AnalysisError('%s: `return <local>` not found' % name)
+        tail_rets = [x for x in lib.returns_of(fi.node) if not any(x is n for n in ast.walk(lp))]
+        if len(tail_rets) != 1:
+            raise AnalysisError('%s: expected one return after the scan' % name)
+        tv = tail_rets[0].value
+        out = tv.id if isinstance(tv, ast.Name) else None
+        if out is None and nf.const_value(nf.canon(tv), None) != -1:
+            raise AnalysisError('%s: the scan ends with `%s`' % (name, short(tail_rets[0])))
         good = '%s.marked[%s][%s]' % ((S, p, k) if axis == 'row' else (S, k, p))
         swapped = '%s.marked[%s][%s]' % ((S, k, p) if axis == 'row' else (S, p, k))
         other = 2 if mark == 1 else 1
@@ -768,7 +820,7 @@ def _scans(r, idx, meth):
                         'primed' if other == 2 else 'starred', other, 'primed' if mark == 2 else 'starred', mark)),
                            ('%s == %d' % (swapped, mark), 'the scan runs along the %s instead of the %s' % (
                                'column' if axis == 'row' else 'row', axis))],
-                    tracked={'out': out})
+                    tracked={'out': out or '_sa_no_such_local'})
         tab, names = cell.table(lp.body)
         construct = label + ': scan'
         if tab is None:
@@ -776,9 +828,10 @@ def _scans(r, idx, meth):
                 r.violation(construct, msg + ' (`%s`)' % short(e), fi.loc)
             continue
         hit, miss = tab[(True,)], tab[(False,)]
-        found = any(t == 'out' and op == '=' and cm.is_name(v, k) for t, op, v, s in hit[0])
+        found = any(t == 'out' and op == '=' and cm.is_name(v, k) for t, op, v, s in hit[0]) or \
+            (hit[1] is not None and hit[1][0] == 'return' and cm.is_name(hit[1][1].value, k))
         spurious = any(t == 'out' for t, op, v, s in miss[0]) or (miss[1] and miss[1][0] in ('break', 'return'))
-        init = [v for v in lib.assigned_value(fi.node, out) if nf.const_value(nf.canon(v), None) == -1]
+        init = True if out is None else [v for v in lib.assigned_value(fi.node, out) if nf.const_value(nf.canon(v), None) == -1]
         if found and not spurious and init:
             r.ok(construct, 'index of the %s in the %s, -1 when there is none' % (word, axis), fi.loc)
         elif not init:
@@ -855,8 +908,8 @@ def _resets(r, idx, cc, ep):
     _full_range(r, ep, env, [lo, li], label, S)
     cell = Cell(ep, env, atoms={'pr': '%s.marked[%s][%s] == 2' % (S, i, j)},
                 wrong=[('%s.marked[%s][%s] == 1' % (S, i, j), 'stars are erased instead of primes')],
-                tracked={'m': '%s.marked[%s][%s]' % (S, i, j)})
-    tab, names = cell.table(li.body)
+                tracked={'m': '%s.marked[%s][%s]' % (S, i, j)}, inner=li)
+    tab, names = cell.table(lo.body)
     if tab is None:
         for msg, e in cell.violations:
             r.violation(label + ': reset', msg + ' (`%s`)' % short(e), ep.loc)
